@@ -235,6 +235,7 @@ OPTION_VECTORS = [
 LAYER_NAME_SETS = [
     [UNIT, "wm.L1", "wm.L2"], ["wm.L1"], [UNIT], ["wm.L2", UNIT, "wm.L1", "other.Layer"], [],
     [UNIT, "x.zope.testrunner.layer.UnitTests2", "wm.L1"], [UNIT, "zope_testrunner_layer_UnitTests"],
+    ["wm.L10", "wm.L1x", "xwm.L1", "wm.L1"], ["wm.Store", "wm.StoreCache", "wm.StoreIndex", "wmxStore"], ["a.b", "a+b", "a.b.c", "aXb"],
 ]
 
 
@@ -268,7 +269,8 @@ def run_layers(ctx):
     info = []
     for args in OPTION_VECTORS:
         for names in LAYER_NAME_SETS:
-            for resume in [None] + ([names[-1]] if names else []) + (["missing.Layer"] if args == [] else []):
+            for resume in [None] + ([names[-1]] if names else []) + ([names[0]] if len(names) > 1 else []) + \
+                    (["missing.Layer"] if args == [] else []):
                 o, kept, pats, re = real_filter(names, args, resume)
                 neg = [p.startswith("!") for p in pats]
                 mat = [[re.compile(p[1:] if p.startswith("!") else p).search(n) is not None for n in names]
@@ -320,6 +322,13 @@ def run_layers(ctx):
                     sig = "unit-regex-matches-other-layer"
                 ctx.violation("options %r keep layers %r, the statement keeps %r" % (args, kept, want), case, signature=sig)
                 continue
+        # ---- monitor: a child process keeps its --resume-layer and nothing else (C03: one layer per child)
+        plain = not any(a in ("-u", "-f", "--layer") for a in args)
+        if resume is not None and (any(k != resume for k in kept) or
+                                   (plain and resume in names and kept != [resume])):
+            ctx.violation("a child process for layer %r keeps layers %r of %r" % (resume, kept, names), case,
+                          signature="child-layer-selection")
+            continue
         # ---- monitor: the switches in combination with --layer (parent process)
         if resume is None and "--layer" in args:
             u, f = "-u" in args, "-f" in args
